@@ -98,6 +98,41 @@ def runHistory (buggySetter : Bool) (line : List String) : String :=
     | _, _ => "bad-args"
   | _ => "bad-args"
 
+/-! C16: a path and its shallow copy.  `twinhist init <segs> ; <op> ; ... ; copy ; o <op> ; t <op> ; ...`: untagged ops
+before `copy` act on the single path, afterwards `o` = the original, `t` = the copy.  After every op both segment lists
+are reported. -/
+open SvgVerif.Model.PathState in
+def runTwinHistory (line : List String) : String :=
+  let parts := (" ".intercalate line).splitOn ";" |>.map words
+  let len1 : Nat → Seg Int → Rat := fun a s => ((s.stop - s.start).natAbs : Nat) * (1 + 1 / (10 : Rat) ^ a)
+  let falsy1 : Int → Bool := fun p => p == 0
+  let showSegs := fun (s : PState Int Rat Nat) => "[" ++ " ".intercalate (s.segs.map fun g => s!"{g.start},{g.stop}") ++ "]"
+  match parts with
+  | ("init" :: segs) :: ops =>
+    match parseSegs segs with
+    | some segs =>
+      let (_, _, outs) := ops.foldl (fun (acc : (PState Int Rat Nat × PState Int Rat Nat) × Bool × List String) ws =>
+          let (st, copied, os) := acc
+          match copied, ws with
+          | false, ["copy"] => ((st.1, st.1), true, ("copied " ++ showSegs st.1) :: os)
+          | false, _ =>
+            match parseOp ws with
+            | some op =>
+              let r := step len1 12 falsy1 st.1 op
+              ((r.1, r.1), false, (showOut r.2 ++ " " ++ showSegs r.1) :: os)
+            | none => (st, copied, "bad-op" :: os)
+          | true, tag :: rest =>
+            match (if tag == "o" then some Who.orig else if tag == "t" then some Who.twin else none), parseOp rest with
+            | some w, some op =>
+              let r := stepTwin len1 12 falsy1 st w op
+              (r.1, true, (showOut r.2 ++ " " ++ showSegs r.1.1 ++ " " ++ showSegs r.1.2) :: os)
+            | _, _ => (st, copied, "bad-op" :: os)
+          | true, [] => (st, copied, "bad-op" :: os))
+        ((fresh segs, fresh segs), false, [])
+      " ; ".intercalate outs.reverse
+    | none => "bad-args"
+  | _ => "bad-args"
+
 /-! C16: CubicBezier length cache.  ops: `req <bp label> <error> <min_depth>` separated by `;`.
 The integrator is the identity on its request, so each answer shows which request computed it. -/
 open SvgVerif.Model.CubicCache in
@@ -1020,6 +1055,7 @@ def handle (cmd : String) (args : List String) : String :=
   | "phase2t" => runPhase2t args
   | "pathint" => runPathInt args
   | "hist" => runHistory false args
+  | "twinhist" => runTwinHistory args
   | "hist_buggy_setter" => runHistory true args
   | _ => "bad-op"
 
